@@ -220,6 +220,8 @@ impl<'a, R: RealNumberInternalTrait> Interpreter<'a, R> {
         closure: Rc<Environment<R>>,
         args: ArgVec<R>,
     ) -> Result<TailExpressionResult<'b, R>> {
+        #[cfg(ruschm_verif)]
+        let _verif_depth = crate::verif::enter();
         let local_env = Rc::new(Environment::new_child(closure));
         let mut arg_iter = args.into_iter();
         if let Some(variadic) = formals.iter_to_last(|formal| {
@@ -270,6 +272,8 @@ impl<'a, R: RealNumberInternalTrait> Interpreter<'a, R> {
         mut args: ArgVec<R>,
         env: &Rc<Environment<R>>,
     ) -> Result<Value<R>> {
+        #[cfg(ruschm_verif)]
+        let _verif_depth = crate::verif::enter();
         let mut current_procedure = None;
         loop {
             let procedure = if current_procedure.is_none() {
@@ -323,6 +327,8 @@ impl<'a, R: RealNumberInternalTrait> Interpreter<'a, R> {
         expression: &Expression,
         env: Rc<Environment<R>>,
     ) -> Result<TailExpressionResult<R>> {
+        #[cfg(ruschm_verif)]
+        let _verif_depth = crate::verif::enter();
         Ok(match &expression.data {
             ExpressionBody::ProcedureCall(procedure_expr, arguments) => {
                 TailExpressionResult::TailCall(TailCall::Ref(
@@ -414,6 +420,8 @@ impl<'a, R: RealNumberInternalTrait> Interpreter<'a, R> {
     }
 
     pub fn eval_expression(expression: &Expression, env: &Rc<Environment<R>>) -> Result<Value<R>> {
+        #[cfg(ruschm_verif)]
+        let _verif_depth = crate::verif::enter();
         Ok(match &expression.data {
             ExpressionBody::Primitive(datum) => Self::eval_primitive(datum)?,
             ExpressionBody::Datum(datum) => Self::read_literal(datum, env)?,
